@@ -115,13 +115,18 @@ theorem hasIEMarker_escQ (v : Str) : hasIEMarker (escQ v) = hasIEMarker v := by
 /-- the body of a comment starts with ws* `[` ws* `if` -/
 def condStart (c : Str) : Bool := (matchItems ieCondPat c).isSome
 
-/-- token by token: what keeps the opener of an IE conditional comment out of the rendering -/
+/-- token by token: what keeps the opener of an IE conditional comment out of the rendering.
+
+    The `.data` clause speaks about the content of raw-text elements (`script` / `style`; `ListOK.raw`): that
+    text is rendered as it is and may contain anything, also `<!--[if`.  For a data token of the grammar outside
+    raw text (`TokOK`: no `<` except the singleton) the clause holds by itself (`tokNoIE_data_of_tokOK`). -/
 def TokNoIE : Token → Prop
   | .comment c => condStart c = false
   | .start _ a => ∀ x ∈ a, ∀ v, x.2 = some v → hasIEMarker v = false
   | .startend _ a => ∀ x ∈ a, ∀ v, x.2 = some v → hasIEMarker v = false
   | .decl d => hasIEMarker d = false
   | .pi p => hasIEMarker p = false
+  | .data s => hasIEMarker s = false
   | _ => True
 
 theorem matchItems_opener_shape (s : Str) (h : (matchItems ieOpenerPat s).isSome = true) :
@@ -190,6 +195,7 @@ def tokIE : Token → Bool
   | .startend _ a => a.any attrIE
   | .decl d => hasIEMarker d
   | .pi p => hasIEMarker p
+  | .data s => hasIEMarker s
   | _ => false
 
 theorem hasIEMarker_renderAttrs_eq (a : List Attr) (h : ∀ x ∈ a, AttrOK x) (rest : Str) :
@@ -235,17 +241,20 @@ theorem hasIEMarker_tag_eq (n : Str) (a : List Attr) (sc : Bool) (hn : TagNameOK
   have : hasIEMarker (closer sc) = false := by cases sc <;> decide
   rw [this, Bool.or_false]
 
+/-- a data token of the grammar outside raw text (a `<` / `&` singleton, or a run without `<` and `&`) contains
+    no opener -/
+theorem hasIEMarker_data_of_tokOK (s : Str) (h : TokOK (.data s)) : hasIEMarker s = false := by
+  rcases h with rfl | rfl | ⟨_, hall⟩
+  · decide
+  · decide
+  · exact hasIEMarker_no_lt s (fun hlt => (hall '<' hlt).1 rfl)
+
 /-- **one token, exactly**: the rendering of a well-formed token contains the marker iff the token-level test
     says so -/
 theorem tokIE_render (t : Token) (h : TokOK t) : hasIEMarker (renderTok t) = tokIE t := by
   cases t with
   | unknownDecl d => exact absurd h (by simp [TokOK])
-  | data s =>
-    show _ = false
-    rcases h with rfl | rfl | ⟨_, hall⟩
-    · decide
-    · decide
-    · exact hasIEMarker_no_lt s (fun hlt => (hall '<' hlt).1 rfl)
+  | data s => rfl
   | entity n =>
     show _ = false
     apply hasIEMarker_no_lt
@@ -327,6 +336,36 @@ theorem tokNoIE_render (t : Token) (h : TokOK t) (hm : TokNoIE t) : hasIEMarker 
   rw [tokIE_render t h]
   exact (tokNoIE_iff t).mp hm
 
+/-- on the grammar outside raw text the `.data` clause of `TokNoIE` / `tokIE` says nothing: it holds for every
+    well-formed data token -/
+theorem tokNoIE_data_of_tokOK (s : Str) (h : TokOK (.data s)) : TokNoIE (.data s) :=
+  hasIEMarker_data_of_tokOK s h
+
+theorem tokIE_data_of_tokOK (s : Str) (h : TokOK (.data s)) : tokIE (.data s) = false :=
+  hasIEMarker_data_of_tokOK s h
+
+/-- the two tokens of a raw-text element that `TokOK` does not describe (its start tag, its content): the
+    rendering contains the marker iff the token-level test says so — an attribute value with the marker, or the
+    marker in the raw text itself -/
+theorem tokIE_render_raw (t : Token) (h : RawTok t) : hasIEMarker (renderTok t) = tokIE t := by
+  cases t with
+  | start n a =>
+    have := hasIEMarker_tag_eq n a false (rawName_tagNameOK n h.1) h.2
+    simpa [renderTok, closer, tokIE] using this
+  | data s => rfl
+  | _ => exact absurd h (by simp [RawTok])
+
+/-- every token of a list in the serialiser's image (`ListOK.tokOK`) -/
+theorem tokIE_render_any (t : Token) (h : TokOK t ∨ RawTok t) : hasIEMarker (renderTok t) = tokIE t := by
+  rcases h with h | h
+  · exact tokIE_render t h
+  · exact tokIE_render_raw t h
+
+theorem tokNoIE_render_any (t : Token) (h : TokOK t ∨ RawTok t) (hm : TokNoIE t) :
+    hasIEMarker (renderTok t) = false := by
+  rw [tokIE_render_any t h]
+  exact (tokNoIE_iff t).mp hm
+
 /-! ### token lists: no opener reaches across a token boundary -/
 
 theorem renderTok_last (t : Token) (h : TokOK t) (hd : isData t = false) :
@@ -373,31 +412,70 @@ theorem hasIEMarker_render_step (t : Token) (h : TokOK t) (R : Str) (hf : Follow
         rw [hasIEMarker_append_no_lt R s hnlt, hasIEMarker_no_lt s (fun hlt => hnlt '<' hlt rfl), Bool.false_or]
     | _ => simp [isData] at hd
 
+/-- in front of `>` and behind it: no opener reaches across -/
+theorem hasIEMarker_gt_step (y R : Str) :
+    hasIEMarker (y ++ '>' :: R) = (hasIEMarker (y ++ ['>']) || hasIEMarker R) := by
+  rw [hasIEMarker_split '>' ieStop_gt (by decide) y R, hasIEMarker_split '>' ieStop_gt (by decide) y []]
+  have hnil : hasIEMarker [] = false := rfl
+  rw [hnil, Bool.or_false]
+
+/-- a start tag (any name, any attributes) in front of a text -/
+theorem hasIEMarker_start_step (n : Str) (a : List Attr) (R : Str) :
+    hasIEMarker (renderTok (.start n a) ++ R) = (hasIEMarker (renderTok (.start n a)) || hasIEMarker R) := by
+  have e : renderTok (.start n a) = (('<' :: n) ++ renderAttrs a ++ [' ']) ++ ['>'] := by simp [renderTok]
+  rw [e, List.append_assoc _ ['>'] R, List.singleton_append, hasIEMarker_gt_step]
+
+/-- an end tag (any name) in front of a text -/
+theorem hasIEMarker_end_step (n : Str) (R : Str) :
+    hasIEMarker (renderTok (.end_ n) ++ R) = (hasIEMarker (renderTok (.end_ n)) || hasIEMarker R) := by
+  have e : renderTok (.end_ n) = ('<' :: '/' :: n) ++ ['>'] := by simp [renderTok]
+  rw [e, List.append_assoc _ ['>'] R, List.singleton_append, hasIEMarker_gt_step]
+
+/-- the content of a raw-text element — ANY text — in front of the element's end tag: the `<` of the end tag
+    stops every opener that starts in the content (`IEStop '<'`), so the openers are those of the content, of
+    the end tag and of what follows -/
+theorem hasIEMarker_raw_step (raw n R : Str) :
+    hasIEMarker (raw ++ (renderTok (.end_ n) ++ R))
+      = (hasIEMarker raw || (hasIEMarker (renderTok (.end_ n)) || hasIEMarker R)) := by
+  rw [← hasIEMarker_end_step]
+  have e : renderTok (.end_ n) ++ R = '<' :: ('/' :: n ++ '>' :: R) := by simp [renderTok]
+  rw [e, hasIEMarker_append_stop '<' ieStop_lt]
+
 /-- **the rendering of a token list in the serialiser's image has an opener exactly when one of its tokens'
-    renderings has one** -/
+    renderings has one** (raw-text elements included: the content token's rendering is the raw text) -/
 theorem hasIEMarker_renderToks (ts : List Token) (h : ListOK ts) :
     hasIEMarker (renderToks ts) = ts.any (fun t => hasIEMarker (renderTok t)) := by
-  induction ts with
+  induction h with
   | nil => rfl
-  | cons t ts ih =>
-    obtain ⟨ht, hf, hts⟩ := h
-    rw [renderToks, hasIEMarker_render_step t ht _ hf, ih hts, List.any_cons]
+  | @cons t ts ht hf _ ih =>
+    rw [renderToks, hasIEMarker_render_step t ht _ hf, ih, List.any_cons]
+  | @raw n a raw ts _ _ _ _ _ ih =>
+    show hasIEMarker (renderTok (.start n a) ++ (raw ++ (renderTok (.end_ n) ++ renderToks ts))) = _
+    rw [hasIEMarker_start_step, hasIEMarker_raw_step, ih, List.any_cons, List.any_cons, List.any_cons]
+    rfl
+  | @rawEmpty n a ts _ _ _ ih =>
+    show hasIEMarker (renderTok (.start n a) ++ (renderTok (.end_ n) ++ renderToks ts)) = _
+    rw [hasIEMarker_start_step, hasIEMarker_end_step, ih, List.any_cons, List.any_cons]
 
-/-- the same with the token-level test: the marker stands in the rendering iff some token has it -/
+/-- the same with the token-level test: the marker stands in the rendering iff some token has it (for the
+    content of a raw-text element the test is "the raw text contains the marker") -/
 theorem hasIEMarker_renderToks_tok (ts : List Token) (h : ListOK ts) :
     hasIEMarker (renderToks ts) = ts.any tokIE := by
   rw [hasIEMarker_renderToks ts h]
+  have hall := h.tokOK
+  clear h
   induction ts with
   | nil => rfl
   | cons t ts ih =>
-    rw [List.any_cons, List.any_cons, tokIE_render t h.1, ih h.2.2]
+    rw [List.any_cons, List.any_cons, tokIE_render_any t (hall t List.mem_cons_self),
+      ih (fun x hx => hall x (List.mem_cons_of_mem _ hx))]
 
 theorem renderToks_no_marker_of (ts : List Token) (h : ListOK ts) (hm : ∀ t ∈ ts, TokNoIE t) :
     hasIEMarker (renderToks ts) = false := by
   rw [hasIEMarker_renderToks ts h]
   apply List.any_eq_false.mpr
   intro t ht
-  rw [tokNoIE_render t (h.tokOK t ht) (hm t ht)]
+  rw [tokNoIE_render_any t (h.tokOK t ht) (hm t ht)]
   simp
 
 theorem parseText_renderToks (ts : List Token) (h : ListOK ts) (hm : ∀ t ∈ ts, TokNoIE t) :
